@@ -451,6 +451,17 @@ def bad_sources():
             out.append('OP_SWAP %s %s' % (a, b))
     for a in (('x00', 'd256', 'd1'), ('x00', 'd1', 'd256'), ('x0000', 'd1', 'd1'), ('d256', 'd1', 'd1')):
         out.append('OP_CHECK_MULTISIG %s %s %s' % a)
+    # hex operands of the wrong width (empty, one digit, three digits) in each operand position of the two-/three-operand forms
+    for bad in ('x', 'x1', 'x001', 'x0102'):
+        for pos in range(2):
+            a = ['x01', 'x01']
+            a[pos] = bad
+            out.append('true OP_SWAP %s %s false' % tuple(a))
+        for pos in range(3):
+            a = ['x00', 'x01', 'x01']
+            a[pos] = bad
+            out.append('true OP_CHECK_MULTISIG %s %s %s false' % tuple(a))
+            out.append('OP_CHECK_MULTISIG_VERIFY %s %s %s' % tuple(a))
     out.append('OP_PUSH x' + 'aa' * 65536)
     out.append('OP_PUSH2 x' + 'aa' * 65536)
     out.append('OP_PUSH1 x' + 'aa' * 256)
